@@ -8,10 +8,14 @@ prop("C08", pkg="c08",
           "EVERY proper prefix through Unmarshal (and every third through a Decoder over bytes.Reader / bytes.Buffer / bufio / plain / one-byte readers), every "
           "list/set/map/string header with its count replaced by -1, -2^31, n-1, n+1, 2^24, 2^31-1, 2^31, 2^35, 2^63, every field header with 2 other type codes "
           "and 3 other ids, the flipped and random inputs, the unknown fields inserted at every field boundary of every struct node, top level and nested (<= 80 per case), "
+          "on every second of these encodings the header-count mutations again, applied to the lists, sets, maps and strings INSIDE the undeclared field (the skip path: count "
+          "-1, -2^31, N+1, 2^24, 2^31-1, and 2^31 / 2^35 in compact; a negative or oversized count must be rejected there too), "
           "and on EACH of these encodings the truncation family again (cut exactly before the inserted field, <= 32 cuts inside it, the cut exactly after it, the cut that "
           "drops only the final STOP - through Unmarshal and a Decoder - and every proper prefix for each sixth insertion: plain io.EOF only for the empty input), the trailing "
           "bytes, every required field removed in turn, and every field (and non-empty container element type) replaced by another wire type under strict mode; "
-          "or (10%) 1-12 random Reader method calls on random bytes; or (~1.1%) a 'bigstr' case: a string or []byte of 65537, 70000 or 131073 bytes (the readers take "
+          "or (10%) Reader method calls: 1-12 random calls on random bytes or (a third) a crafted list / set / map / string header announcing -1, -2, -2^31, 2^24, 2^31-1, 2^31 "
+          "or 2^35 directly in front of ReadList / ReadSet / ReadMap / ReadBytes / ReadString / ReadLength - a negative or beyond-MaxInt32 announcement must be an error, and no "
+          "call may ever hand out a negative size or a value longer than the input; or (~1.1%) a 'bigstr' case: a string or []byte of 65537, 70000 or 131073 bytes (the readers take "
           "lengths above 64 KiB incrementally) as top-level Unmarshal target, as last element of a top-level list, as last field of a struct, or read through "
           "Reader.ReadString / ReadBytes, both protocols, cut inside the length prefix, 0 and 1 byte into the body, at the 64 KiB marks of the body, in its middle, 1 byte "
           "before its end and 1 byte before the end of the input - each cut through Unmarshal and a Decoder over the different io.Reader kinds - and every cut must give an "
@@ -37,7 +41,7 @@ prop("C08", pkg="c08",
      fuzz=[("FuzzThriftDecode", 90)],
      technique="property-based testing (rapid) + exhaustive prefix/header-mutation enumeration per generated encoding, validity and metamorphic oracles, "
                "out-of-process supervision with address-space limit and stall watchdog; coverage-guided native go fuzzing (thorough tier) with the oracle inside the target",
-     level_text="Exploration: ~15 M decode calls per quick run (~90 M thorough plus a 90 s native fuzzing campaign, ~1 M execs): no panic or fatal fault; every proper prefix of a valid encoding gives errors.Is(err, io.ErrUnexpectedEOF) "
+     level_text="Exploration: ~14 M decode calls per quick run (~85 M thorough plus a 90 s native fuzzing campaign, ~1 M execs): no panic or fatal fault; every proper prefix of a valid encoding gives errors.Is(err, io.ErrUnexpectedEOF) "
                 "(io.EOF for empty input); negative / oversized counts give an error; TotalAlloc delta <= 64 MiB for inputs <= 4 KiB; undeclared fields of any type and "
                 "nesting leave the decoded value unchanged; trailing bytes, missing required fields (*MissingField) and strict-mode wire type changes (*TypeMismatch) are "
                 "reported, the latter two with errors.As and, for MissingField, the id of the missing field. A call on a <= 4 KiB input that has not returned after 20 s "
